@@ -209,7 +209,7 @@ PROPS = {
         filter=lambda pid, d: _token_filter(["token.field-", "literal.exact", "token.envelope:tag-", "token.envelope:sp-", "token.envelope:payload-not-map", "token.envelope:outer-extra"])(pid, d)
         and (not d.get("class", "").startswith("token.field-") or "go-accepts-model-rejects" in d.get("class", "") or "PANIC" in d.get("class", "") or "TIMEOUT" in d.get("class", "")),
         technique="Lean 4 proofs of envelope and schema strictness over REGENERATED schema tables (decide-checked facts: tags differ, Go struct field order = schema order, nonce minimum ≥ 12), of tag-directed dispatch (no type confusion) and of the well-formedness of every decoded delegation; tied by the full product field × mutation × decoder, each correctly re-signed, and by every Go integer type at its boundaries through literal.Any/args.Add/meta.Add",
-        level_text="C10_tags_differ, C10_struct_order, C10_nonce_min, C10_schema_kinds_known, C10_schema_strict, C10_no_type_confusion_dlg/inv, C10_generic_dispatch, C10_decoded_dlg_wf (nonce ≥ 12, command in the grammar, time bounds within ±(2^53−1)). Go: every payload field of both token types × {dropped, null, 19 retypings incl. boundary integers, field-specific malformed values} + unknown key + envelope shape cases, re-signed, through 3 decoders (× DAG-JSON sample); 90 (type, value) integer cases exact-or-rejected. Regenerated and proved (Tie/Limits): limits.ValidateIntegerBoundsIPLD — the recursive walk behind args.Add, Args.Validate, literal.Any and the policy decoder — accepts exactly the nodes whose integers all lie within ±(2^53−1), for every node and every fuel above its nesting depth, and refuses with an error value (no panic, integers beyond int64 included); (*args.Args).Validate, the decoders' check of a decoded invocation's arguments, accepts exactly the argument sets whose values are all in bounds, for every order in which the Go map hands out its entries (Tie/Args), and is what the decode bridge's argsP stands for.",
+        level_text="C10_tags_differ, C10_struct_order, C10_nonce_min, C10_schema_kinds_known, C10_schema_strict, C10_no_type_confusion_dlg/inv, C10_generic_dispatch, C10_decoded_dlg_wf (nonce ≥ 12, command in the grammar, time bounds within ±(2^53−1)). Go: every payload field of both token types × {dropped, null, 19 retypings incl. boundary integers, field-specific malformed values} + unknown key + envelope shape cases, re-signed, through 3 decoders (× DAG-JSON sample); 90 (type, value) integer cases exact-or-rejected. Regenerated and proved (Tie/Limits): limits.ValidateIntegerBoundsIPLD — the recursive walk behind args.Add, Args.Validate, literal.Any and the policy decoder — accepts exactly the nodes whose integers all lie within ±(2^53−1), for every node and every fuel above its nesting depth, and refuses with an error value (no panic, integers beyond int64 included); (*args.Args).Validate, the decoders' check of a decoded invocation's arguments, accepts exactly the argument sets whose values are all in bounds, for every order in which the Go map hands out its entries (Tie/Args), and is what the decode bridge's argsP stands for. Inv_decoded_args_in_bounds: an invocation handed out by the regenerated tokenFromModel + validate() + Args.Validate + ValidateIntegerBoundsIPLD has every argument integer within bounds at any depth.",
         level_note=_TOKEN_NOTE,
     ),
     "C17": dict(
